@@ -315,6 +315,13 @@ pub fn run(args: &[&str]) -> String {
         // long identifiers: an RSA-2048 key with metadata, an Ed25519 key with a certificate chain
         "rsa" => format!(r#"{{"kty":"RSA","n":"{}","e":"AQAB","alg":"RS256","kid":"key-1","use":"sig"}}"#, "sXchDaQebHnPiGvyDOAT4saGEUetSyo9MKLOoWFsueri23bOdgWp4Dy1WlUzewbgBHod5pcM9H95GQRV3JDXboIRROSBigeC5yjU1hGzHHyXss8UDprecbAYxknTcQkhslANGRUZmdTOQ5qTRsLAt6BTYuyvVRdhS8exSZEy_c4gs_7svlJJQ4H9_NxsiIoLwAEk7-Q3UXERGYw_75IDrGA84-lA_-Ct4eTlXHBIY2EaV7t7LjJaynVJCpkv4LKjTTAumiGUIuQhrNhZLuF_RJLqHpM2kgWFLU7-VTdL1VbC2tejvcI2BlMkEpk1BzBZI0KQB0GaDWFLN-aEAw3vRw"),
         "edchain" => format!(r#"{{"kty":"OKP","crv":"Ed25519","x":"11qYAYKxCrfVS_7TyWQHOg7hcvPapiMlrwIaaPcHURo","kid":"key-1","x5c":["{}","{}"]}}"#, "MIIB".repeat(150), "QUJD".repeat(90)),
+        // EC keys of every curve with the algorithm of that curve spelled out
+        "p256alg" => r#"{"kty":"EC","crv":"P-256","x":"acbIQiuMs3i8_uszEjJ2tpTtRM4EU3yz91PH6CdH2V0","y":"_KcyLj9vWMptnmKtm46GqDz8wf74I5LKgrl2GzH3nSE","alg":"ES256"}"#.to_string(),
+        "p384alg" => format!(r#"{{"kty":"EC","crv":"P-384","x":"{}","y":"{}","alg":"ES384"}}"#, b64(&[7u8; 48]), b64(&[9u8; 48])),
+        "p521alg" => format!(r#"{{"kty":"EC","crv":"P-521","x":"{}","y":"{}","alg":"ES512"}}"#, b64(&[7u8; 66]), b64(&[9u8; 66])),
+        "p521" => format!(r#"{{"kty":"EC","crv":"P-521","x":"{}","y":"{}"}}"#, b64(&[7u8; 66]), b64(&[9u8; 66])),
+        "k256alg" => r#"{"kty":"EC","crv":"secp256k1","x":"WfY7Px6AgH6x-_dgAoRbg8weYRJA36ON-gQiFnETrqw","y":"bVy-z-v_-Y9nN2o8kw2bp6Vn7a8Sjp_NL3Dq_vCr4KQ","alg":"ES256K"}"#.to_string(),
+        "x25519" => r#"{"kty":"OKP","crv":"X25519","x":"3p7bfXt9wbTTW2HC7OQ1Nz-DQ8hbeGdNrfx-FG-IK08","use":"enc"}"#.to_string(),
         "garbage" => "not json".to_string(),
         _ => return "bad-request".into(),
       };
@@ -486,7 +493,7 @@ pub fn gen(thorough: bool, seed: u64, out: &mut impl Write) {
   for n in [1usize, 2, 3, 5] {
     writeln!(out, "C20 jwkmulti {}", n).unwrap();
   }
-  for v in ["ed", "edalg", "edx5", "p256", "rsa", "edchain", "priv", "garbage"] {
+  for v in ["ed", "edalg", "edx5", "p256", "rsa", "edchain", "priv", "garbage", "p256alg", "p384alg", "p521alg", "p521", "k256alg", "x25519"] {
     writeln!(out, "C20 jwk {}", v).unwrap();
   }
 }
